@@ -408,6 +408,21 @@ pub fn check(case: &Case, obs: &mut Obs) -> CaseResult {
     ensure!(res > now, "C16:not-in-future", "TZ={:?}: next({}, {:?} x{}, modulate={}) = {} is not strictly after now", case.zone, now, case.unit, case.n, case.modulate, res);
     // an interval whose end chrono cannot represent never elapses: only "no panic" and "in the future" apply
     if case.n > 10_000_000 {
+        // the trigger object itself (built through the deserializer, as a configuration file would) and its
+        // Debug rendering must cope with the far-future schedule as well
+        let lit = format!("{} {}", case.n, unit_word(case.unit));
+        let built = catch(|| {
+            let cfg: TimeTriggerConfig = serde_json::from_value(serde_json::json!({"interval": lit, "modulate": case.modulate, "max_random_delay": 3600})).map_err(|e| e.to_string())?;
+            clock::set_now(Some((case.unix, case.nanos)));
+            let t = TimeTrigger::new(cfg);
+            let d = format!("{:?}", t);
+            clock::set_now(None);
+            Ok::<usize, String>(d.len())
+        });
+        clock::set_now(None);
+        if let Err(p) = built {
+            return fail(panic_sig(case.unit, &p), format!("TZ={:?}: building/printing a trigger with interval {:?} panicked: {}", case.zone, lit, p));
+        }
         obs.class("unrepresentable-interval(no-panic+future-only)");
         obs.nontrivial = true;
         return Ok(());
